@@ -74,7 +74,9 @@ JEq(a, b) ==
 
 (* ---------- strings ---------- *)
 \* Character ids and their width in UTF-8 bytes.  "a","b" ASCII, "e2" = U+00E9,
-\* "w3" = U+4E16, "g4" = U+1F600 (harness/abs/tables.go holds the same table).
+\* "w3" = U+4E16, "g4" = U+1F600 (harness/internal/abs/abs.go holds the same table).  Ids outside CharIds
+\* ("pc" %, "bt" backtick, "qt" double quote, "bs" backslash, "nl" newline, "sp" space; all 1 byte) occur only
+\* in hand-picked names and enum values, never in the enumerated string documents.
 CharIds == {"a", "b", "e2", "w3", "g4"}
 Width(c) == CASE c = "a" -> 1 [] c = "b" -> 1 [] c = "e2" -> 2 [] c = "w3" -> 3 [] c = "g4" -> 4
               [] OTHER -> 1
@@ -274,7 +276,13 @@ ValidObj(env, s, d, D) ==
                 /\ ~(k \in PropNames(s) /\ Has(PropSchema(s, k), "default"))
                 /\ ~(Has(s, "defaulted") /\ k \in s.defaulted)}   \* default given by a sibling allOf branch
       reqOK == B3(\A k \in req : ObjHas(d, k))
-      propsOK == {Valid(env, PropSchema(s, k), ObjVal(d, k), D, "field", NoLim)
+      \* a null for a property that declares a default counts as absent (C09); deviation
+      \* "EnumNullDefault": an enum-typed field with a default is a value field whose UnmarshalJSON is
+      \* called with null and rejects it (the zero value is not a listed value)
+      propsOK == {LET ps == PropSchema(s, k)  v == ObjVal(d, k) IN
+                  IF v.t = "null" /\ Has(ps, "default") THEN
+                       (IF "EnumNullDefault" \in D /\ Has(ResolveB(env, ps), "enum") THEN Rej ELSE Acc)
+                  ELSE Valid(env, ps, v, D, "field", NoLim)
                     : k \in PropNames(s) \cap ObjKeys(d)}
       extra == ObjKeys(d) \ PropNames(s)
       addl == IF Has(s, "additionalProperties") THEN s.additionalProperties ELSE [k |-> "b", b |-> TRUE]
@@ -310,8 +318,12 @@ Decoded(env, s, d, v, D) ==
                  given == ObjHas(d, k) /\ ObjVal(d, k).t # "null"
              IN IF given THEN ObjHas(v, k) /\ Decoded(env, ps, ObjVal(d, k), ObjVal(v, k), D)
                 ELSE IF Has(ps, "default") THEN
-                       \/ ObjHas(v, k) /\ JEq(ObjVal(v, k), ps.default)
-                       \/ ("EnumNullDefault" \in D /\ FALSE)
+                       \* deviation "AddlMapDefaultDropped": defaultPropertyValue replaces the default of a
+                       \* typed additional-properties map by an empty map
+                       IF "AddlMapDefaultDropped" \in D /\ Main(ps) = "object" /\ Props(ps) = <<>>
+                          /\ Has(ps, "additionalProperties") /\ ps.additionalProperties.k = "s"
+                       THEN ObjHas(v, k) /\ ObjVal(v, k).t = "obj" /\ ObjVal(v, k).o = <<>>
+                       ELSE ObjHas(v, k) /\ JEq(ObjVal(v, k), ps.default)
                 ELSE TRUE
        /\ CollectsAddl(s) =>
              LET extra == ObjKeys(d) \ PropNames(s) IN
